@@ -243,7 +243,7 @@ PRelocInfo ReadRelocInfo(FILE* f) {
     PRelocInfo   PInfo;
     PRelocEntry  PEntry;
     PExportEntry PExp;
-    Boolean      OK = FALSE;
+    Boolean      OK = FALSE, RelocsRead;
     LongWord     StringLen, StringPos;
     LongInt      z;
 
@@ -276,7 +276,7 @@ PRelocInfo ReadRelocInfo(FILE* f) {
                             if (!Read8(f, &PEntry->Addr)) {
                                 break;
                             }
-                            if (!Read4(f, &StringPos)) {
+                            if (!Read4(f, &StringPos) || (StringPos >= StringLen)) {
                                 break;
                             }
                             PEntry->Name = PInfo->Strings + StringPos;
@@ -287,9 +287,10 @@ PRelocInfo ReadRelocInfo(FILE* f) {
 
                         /* read export entries */
 
+                        RelocsRead = (z == (LongInt)PInfo->RelocCount);
                         for (z = 0, PExp = PInfo->ExportEntries; z < PInfo->ExportCount;
                              z++, PExp++) {
-                            if (!Read4(f, &StringPos)) {
+                            if (!Read4(f, &StringPos) || (StringPos >= StringLen)) {
                                 break;
                             }
                             PExp->Name = PInfo->Strings + StringPos;
@@ -301,10 +302,13 @@ PRelocInfo ReadRelocInfo(FILE* f) {
                             }
                         }
 
-                        /* read strings */
+                        /* read strings: names are used as C strings, so the table
+                           must end with a NUL */
 
-                        if (z == PInfo->ExportCount) {
-                            OK = ((fread(PInfo->Strings, 1, StringLen, f)) == StringLen);
+                        if (RelocsRead && (z == PInfo->ExportCount)) {
+                            OK = ((fread(PInfo->Strings, 1, StringLen, f)) == StringLen)
+                                 && ((StringLen == 0)
+                                     || (PInfo->Strings[StringLen - 1] == '\0'));
                         }
                     }
                 }
